@@ -127,6 +127,17 @@ func retainFacts(pkgs []*packages.Package, b *strings.Builder) {
 								set[fn+":"+target] = true
 							}
 						}
+					case *ast.CallExpr:
+						// append(list, v…) into a slice of byte slices ([]net.IP, [][]byte, …)
+						if id, ok := x.Fun.(*ast.Ident); ok && id.Name == "append" && len(x.Args) >= 2 {
+							if st, ok := info.Types[x.Args[0]].Type.Underlying().(*types.Slice); ok && isByteSlice(st.Elem()) && x.Ellipsis == 0 {
+								for _, a := range x.Args[1:] {
+									if classify(info, a) == "alias" {
+										set[fn+":append("+exprStr(x.Args[0])+")"] = true
+									}
+								}
+							}
+						}
 					case *ast.CompositeLit:
 						tv, ok := info.Types[x]
 						if !ok {
